@@ -101,6 +101,36 @@ def qpair(tk):
     return pair(q, q)(tk)
 
 
+def tri(tk):
+    a = qlist(tk)
+    b = qlist(tk)
+    c = qlist(tk)
+    return '[%s; %s; %s]' % (a, b, c)
+
+
+def someobj(tk):
+    w = tk.nx()
+    return ('(Some %s)' % obj(tk)) if w == 'Some' else 'None'
+
+
+def triple_nat(tk):
+    return '(%s, %s, %s)' % (nat(tk), nat(tk), nat(tk))
+
+
+def face(tk):
+    ns = '[' + '; '.join('[%s; %s; %s]' % (nat(tk), nat(tk), nat(tk)) for _ in range(4)) + ']'
+    ow = nat(tk)
+    nb = zint(tk)
+    return '(%s, %s, %s)' % (ns, ow, nb)
+
+
+def catres(tk):
+    counts = natlist(tk)
+    bnd = lst(natlist)(tk)
+    faces = lst(pair(natlist, lst(natlist)))(tk)
+    return '(%s, %s, %s)' % (counts, bnd, faces)
+
+
 # name -> (argument readers, call template, result printer)
 TABLE = {
     'basis_evaluate': ([qlist, nat, nat, q, nat, boo, qlist], 'q_basis_evaluate {0} {1} {2} {3} {4} {5} {6}', lst(qlist)),
@@ -146,6 +176,23 @@ TABLE = {
     'curve_interpolate': ([q, basis, qlist, lst(qlist)], 'match q_curve_interpolate {0} {1} {2} {3} with Ok o => Ok (o_cps o) | Err e => Err e end', res(lst(qlist))),
     'curve_lsq': ([q, basis, qlist, lst(qlist)], 'match q_curve_lsq {0} {1} {2} {3} with Ok o => Ok (o_cps o) | Err e => Err e end', res(lst(qlist))),
     'g2_encode': ([obj], 'q_g2_encode [{0}]', lst(qlist)),
+    'number_model': ([lst(natlist)], 'let r := x_number_model {0} in (snd r, fst r)', pair(nat, lst(natlist))),
+    'eval_grid': ([q, obj, lst(qlist)], 'q_obj_eval_grid {0} {1} {2}', res(lst(qlist))),
+    'eval_pointwise': ([q, obj, lst(qlist)], 'q_obj_eval_pointwise {0} {1} {2}', res(lst(qlist))),
+    'stl_write_surface': ([q, obj, boo, nat, nat],
+                          'match q_stl_write_surface {0} {1} (if {2} then Some ({3}, {4}) else None) with '
+                          'Ok tris => Ok (q_stl_binary_count tris, map (fun t => [fst (fst t); snd (fst t); snd t]) tris) | Err e => Err e end',
+                          res(pair(nat, lst(tri)))),
+    'stl_params': ([nat, qlist, q, q, boo, nat], 'q_stl_params {0} {1} {2} {3} (if {4} then Some {5} else None)', res(qlist)),
+    'spl_lines': ([q, obj], 'q_spl_lines {0} {1}', lst(qlist)),
+    'spl_decode': ([q, lst(qlist)], 'q_spl_decode {0} {1}', someobj),
+    'patch_faces': ([nat, nat, nat, nat],
+                    'map (fun f => (map (fun p => [fst (fst p); snd (fst p); snd p]) (SplipyModel.Model.Faces.nodes f), SplipyModel.Model.Faces.owner f, '
+                    'match SplipyModel.Model.Faces.neighbor f with Some n => Z.of_nat n | None => (-1)%Z end)) (x_patch_faces {0} ({1}, {2}, {3}))',
+                    lst(face)),
+    'cell_numbers': ([lst(triple_nat)], 'let r := x_cell_numbers_model {0} in (snd r, fst r)', pair(nat, lst(natlist))),
+    'catalogue': ([nat, lst(natlist)], 'x_catalogue {0} {1}', catres),
+    'cat_lookup': ([nat, lst(natlist), natlist], 'x_cat_lookup {0} {1} {2}', opt(natlist)),
 }
 
 HEADER = '''From Coq Require Import List ZArith QArith Bool.
@@ -174,7 +221,7 @@ def render(line, out):
     return '(ceq (%s) (%s))' % (templ.format(*args), exp)
 
 
-HEAVY = {'obj_append', 'obj_raise_order', 'obj_lower_order', 'solve', 'curve_interpolate', 'curve_lsq', 'obj_split', 'obj_make_periodic',
+HEAVY = {'stl_write_surface', 'eval_grid', 'eval_pointwise', 'obj_append', 'obj_raise_order', 'obj_lower_order', 'solve', 'curve_interpolate', 'curve_lsq', 'obj_split', 'obj_make_periodic',
          'obj_lower_periodic', 'basis_integrate', 'obj_center'}
 
 
